@@ -235,7 +235,10 @@ func (p *Prog) FuncsOfPkg(rel string) []*ssa.Function {
 	path := pkgPath(rel)
 	var out []*ssa.Function
 	for f := range p.All {
-		if f.Synthetic != "" && !strings.HasPrefix(f.Synthetic, "instance of") {
+		if f.Synthetic != "" && !strings.HasPrefix(f.Synthetic, "instance of") && f.Parent() == nil {
+			// wrappers, thunks, bound methods, package initialisers.  Nested
+			// synthetic functions (the yield closures go/ssa synthesises for
+			// range-over-func loops) are source code and are kept.
 			continue
 		}
 		if len(f.Blocks) == 0 {
